@@ -77,6 +77,7 @@ CaseOK(c) ==
     [] c.kind = "apiop" -> AL!OpOK([c EXCEPT !.allowed = {c.allowed[i] : i \in DOMAIN c.allowed}])
     [] c.kind = "apirun" -> AL!RunOK(c)
     [] c.kind = "compile" -> AL!CompileOK(c)
+    [] c.kind = "errlines" -> AL!ErrLinesOK(c)
     [] c.kind = "limit" -> LimitOK(c)
     [] c.kind = "recovered" -> RecoveredOK(c)
     [] c.kind = "timeout" -> TimeoutOK(c)
